@@ -481,6 +481,8 @@ func genMain(args []string) {
 		genInject(*n)
 	case "sem":
 		genSem(*n)
+	case "nearmiss":
+		genNearMiss()
 	case "lex":
 		genLex(*n)
 	case "json":
